@@ -29,7 +29,7 @@ ROOT = os.path.dirname(HERE)
 OUT = os.path.join(ROOT, "lean", "TflModel", "Generated", "Accept.lean")
 CACHE = os.path.join(ROOT, "lean", ".lake", "accept_cache.json")
 TABLE_ROWS = 3000          # rows per class in the kernel-checked table when the product is sampled
-FULL_LIMIT = 13000         # cross products up to this size (baselines counted separately) are tabulated exhaustively
+FULL_LIMIT = 19000         # cross products up to this size (summed over the baselines, before de-duplication) are tabulated exhaustively
 CHUNK = 500
 
 TOKS = ["increasing", "decreasing", "none", "peak", "valley", "positive", "negative", "convex",
@@ -128,8 +128,12 @@ DOMS = [None, [], [(0, 1)], (0, 1), [[0, 1]], [(1, 0)], [(0, 1), (1, 0)], [(0, 1
         # fix 2ef7ec2: circular dominance sets (3-cycle in two rotations, cycle behind a root, self pair after a valid
         # pair) and acyclic ones that need several rounds (chain, chain listed backwards, transitive triangle)
         [(0, 1), (1, 2), (2, 0)], [(1, 2), (2, 0), (0, 1)], [(0, 1), (1, 2), (2, 1)], [(0, 1), (1, 1)],
-        [(0, 1), (1, 2)], [(1, 2), (0, 1)], [(0, 1), (1, 2), (0, 2)]]
-JOINT_MONO = [None, [], [(0, 1)], (0, 1), [(0, 9)], [(0,)], [(0, -1)], [(1, 0), (0, 1)], [(0, 1.0)]]
+        [(0, 1), (1, 2)], [(1, 2), (0, 1)], [(0, 1), (1, 2), (0, 2)],
+        # fix 18dd711: (d, d) as a single tuple / on the last dimension
+        (0, 0), [(1, 1)]]
+JOINT_MONO = [None, [], [(0, 1)], (0, 1), [(0, 9)], [(0,)], [(0, -1)], [(1, 0), (0, 1)], [(0, 1.0)],
+              # fix 18dd711: a constraint naming one dimension twice (alone, after a valid pair, as a single tuple)
+              [(0, 0)], [(0, 1), (1, 1)], (1, 1)]
 # typed: None | ("list", [(dims, dir), ...]) | ("single", dims, dir)
 JOINT_UNI = [None, ("list", []), ("list", [([0], "peak")]), ("list", [([0, 1], "valley")]),
              ("single", [0, 1], "valley"), ("list", [([0, 0], "peak")]), ("list", [([0], "up")]),
@@ -173,6 +177,31 @@ def ju_wire(v):
   return "S;" + pr((v[1], v[2]))
 
 
+# normalization_order, typed: ("val", <python value>) | ("inf",) | ("-inf",) | ("euclidean",) | ("fro",)
+def no_py(v):
+  import numpy as np
+  return {"val": lambda: v[1], "inf": lambda: np.inf, "-inf": lambda: -np.inf, "euclidean": lambda: "euclidean",
+          "fro": lambda: "fro"}[v[0]]()
+
+
+def no_lean(v):
+  return {"val": lambda: ".val (%s)" % lean_val(v[1]), "inf": lambda: ".inf", "-inf": lambda: ".negInf",
+          "euclidean": lambda: ".euclidean", "fro": lambda: ".fro"}[v[0]]()
+
+
+def no_wire(v):
+  return {"val": lambda: "V" + wire_val(v[1]), "inf": lambda: "INF", "-inf": lambda: "NINF", "euclidean": lambda: "EUC",
+          "fro": lambda: "FRO"}[v[0]]()
+
+
+# arguments that the constructors only store (audit row 5)
+UNITS = [1, 2, 0, -1, 2.0, None]
+ITERS = [10, 0, 1, -1, 2.5, None]
+SPLIT = [False, True, None, 1]
+NORM = [("val", None), ("val", 1), ("val", 2), ("inf",), ("val", 0), ("val", 3), ("val", 1.5), ("val", -1), ("-inf",),
+        ("euclidean",), ("fro",), ("val", "1"), ("val", [1]), ("val", 0.0)]
+
+
 class Spec(object):
   """One table class: `args` (name, kind) in Lean-record order; `factors(base)` the per-argument
   domains (may depend on the baseline's rank); `baselines` valid configurations; `call(cfg)` runs
@@ -188,6 +217,8 @@ class Spec(object):
       v = cfg[a]
       if kind == "ju":
         out.append({"lean": ju_lean, "wire": ju_wire}[how](v))
+      elif kind == "no":
+        out.append({"lean": no_lean, "wire": no_wire}[how](v))
       else:
         out.append({"lean": lean_val, "wire": wire_val}[how](v))
     return out
@@ -249,22 +280,23 @@ def _specs():
     n = len(b["lattice_sizes"])
     return dict(lattice_sizes=_uniq([b["lattice_sizes"]] + [s for s in SIZES if len(s) == n] + EMPTY_SIZES),
                 monotonicities=lattice_mono(n), unimodalities=lattice_uni(n), edgeworth_trusts=TRUSTS,
-                trapezoid_trusts=TRUSTS[:9] + TRUSTS[13:16], monotonic_dominances=DOMS, range_dominances=DOMS[:8],
+                trapezoid_trusts=TRUSTS[:9] + TRUSTS[13:16], monotonic_dominances=DOMS, range_dominances=DOMS[:8] + [[(0, 0)], [(1, 1)], (0, 0)],
                 joint_monotonicities=JOINT_MONO, joint_unimodalities=JOINT_UNI,
-                output_min=[None, 0.0, 1.0, 0], output_max=[None, 0.0, 1.0, 2.0])
+                output_min=[None, 0.0, 1.0, 0], output_max=[None, 0.0, 1.0, 2.0], num_projection_iterations=ITERS)
   lat_args = [("lattice_sizes", "v"), ("monotonicities", "v"), ("unimodalities", "v"), ("edgeworth_trusts", "v"),
               ("trapezoid_trusts", "v"), ("monotonic_dominances", "v"), ("range_dominances", "v"),
-              ("joint_monotonicities", "v"), ("joint_unimodalities", "ju"), ("output_min", "v"), ("output_max", "v")]
+              ("joint_monotonicities", "v"), ("joint_unimodalities", "ju"), ("output_min", "v"), ("output_max", "v"),
+              ("num_projection_iterations", "v")]
   def lat_base(sizes, mono):
     return dict(lattice_sizes=sizes, monotonicities=mono, unimodalities=None, edgeworth_trusts=None,
                 trapezoid_trusts=None, monotonic_dominances=None, range_dominances=None,
                 joint_monotonicities=None, joint_unimodalities=None, output_min=None if len(sizes) == 1 else 0.0,
-                output_max=None if len(sizes) == 3 else 1.0)
+                output_max=None if len(sizes) == 3 else 1.0, num_projection_iterations=10)
   def lat_call(c):
     kw = dict(c)
     kw["joint_unimodalities"] = ju_py(c["joint_unimodalities"])
     return ll.LatticeConstraints(**kw)
-  S.append(Spec("LatticeConstraints", "latticeConstraints", lat_args,
+  S.append(Spec("LatticeConstraints", "latticeConstraintsFull", lat_args,
                 [lat_base([2, 2], [1, 1]), lat_base([3, 3], [1, 0]), lat_base([3, 3, 3], [1, 1, 1]), lat_base([2], [1]),
                  lat_base([2, 3, 2], [1, 1, 0]), lat_base([3, 3, 3], [0, 0, 1])],
                 lat_factors, lat_call))
@@ -304,21 +336,24 @@ def _specs():
     return dict(input_keypoints=KP, output_min=OUTB, output_max=OUTB, monotonicity=MONO1, convexity=CONV,
                 is_cyclic=[False, True], impute_missing=[False, True], missing_input_value=[None, -1.0],
                 missing_output_value=[None, 0.5], input_keypoints_type=KPT, clamp_min=[False, True],
-                clamp_max=[False, True], kernel_initializer=["equal_heights", "equal_slopes", "zeros"])
+                clamp_max=[False, True], kernel_initializer=["equal_heights", "equal_slopes", "zeros"],
+                units=UNITS, num_projection_iterations=ITERS, split_outputs=SPLIT)
   pwl_args = [("input_keypoints", "v"), ("output_min", "v"), ("output_max", "v"), ("monotonicity", "v"),
               ("convexity", "v"), ("is_cyclic", "v"), ("impute_missing", "v"), ("missing_input_value", "v"),
               ("missing_output_value", "v"), ("input_keypoints_type", "v"), ("clamp_min", "v"), ("clamp_max", "v"),
-              ("kernel_initializer", "v")]
-  S.append(Spec("PWLCalibration", "pwlCalibration", pwl_args,
-                [dict(input_keypoints=[0.0, 1.0, 3.0], output_min=0.0, output_max=1.0, monotonicity="increasing",
+              ("kernel_initializer", "v"), ("units", "v"), ("num_projection_iterations", "v"), ("split_outputs", "v")]
+  def pwl_base(**kw):
+    return dict(kw, units=1 if kw["is_cyclic"] else 2, num_projection_iterations=8, split_outputs=bool(kw["is_cyclic"]))
+  S.append(Spec("PWLCalibration", "pwlCalibrationFull", pwl_args,
+                [pwl_base(input_keypoints=[0.0, 1.0, 3.0], output_min=0.0, output_max=1.0, monotonicity="increasing",
                       convexity="none", is_cyclic=False, impute_missing=False, missing_input_value=None,
                       missing_output_value=None, input_keypoints_type="fixed", clamp_min=True, clamp_max=False,
                       kernel_initializer="equal_slopes"),
-                 dict(input_keypoints=[0.0, 1.0], output_min=None, output_max=None, monotonicity="none",
+                 pwl_base(input_keypoints=[0.0, 1.0], output_min=None, output_max=None, monotonicity="none",
                       convexity="none", is_cyclic=True, impute_missing=True, missing_input_value=-1.0,
                       missing_output_value=None, input_keypoints_type="fixed", clamp_min=False, clamp_max=False,
                       kernel_initializer="equal_heights"),
-                 dict(input_keypoints=[0.0, 1.0, 2.0], output_min=0.0, output_max=2.0, monotonicity=0,
+                 pwl_base(input_keypoints=[0.0, 1.0, 2.0], output_min=0.0, output_max=2.0, monotonicity=0,
                       convexity="convex", is_cyclic=False, impute_missing=False, missing_input_value=None,
                       missing_output_value=None, input_keypoints_type="fixed", clamp_min=False, clamp_max=False,
                       kernel_initializer="zeros")],
@@ -326,10 +361,13 @@ def _specs():
   # fix e215d06: list lengths must all be positive (zero, negative, a zero in front of a None: all() short-circuits)
   LEN = [None, [1.0, 2.0], [1.0], [], [0.0, 0.0, 1.0], [1.0, 0.0], [1.0, -0.5], [1, 2], (1.0, 2.0), [0.0, None], [0, 1], [1.0, None], [None, 0.0], [1.0, 'x'], [[1.0], 2.0]]
   def pwc_factors(b):
-    return dict(monotonicity=MONO1, convexity=CONV, lengths=LEN, output_min=OUTB, output_max=OUTB)
-  S.append(Spec("PWLCalibrationConstraints", "pwlConstraints",
-                [("monotonicity", "v"), ("convexity", "v"), ("lengths", "v"), ("output_min", "v"), ("output_max", "v")],
-                [dict(monotonicity=1, convexity=0, lengths=[1.0, 2.0], output_min=0.0, output_max=1.0)],
+    return dict(monotonicity=MONO1, convexity=CONV, lengths=LEN, output_min=OUTB, output_max=OUTB,
+                num_projection_iterations=ITERS)
+  S.append(Spec("PWLCalibrationConstraints", "pwlConstraintsFull",
+                [("monotonicity", "v"), ("convexity", "v"), ("lengths", "v"), ("output_min", "v"), ("output_max", "v"),
+                 ("num_projection_iterations", "v")],
+                [dict(monotonicity=1, convexity=0, lengths=[1.0, 2.0], output_min=0.0, output_max=1.0,
+                      num_projection_iterations=8)],
                 pwc_factors, lambda c: pl.PWLCalibrationConstraints(**c)))
   def uoi_factors(b):
     return dict(output_min=OUTB[1:], output_max=OUTB[1:], monotonicity=MONO1, keypoints=KP)
@@ -347,42 +385,44 @@ def _specs():
   def lbound(n, v, w):
     return _uniq([None, [v] * n, [v] + [None] * (n - 1), [v] + ["none"] * (n - 1), [int(v)] * n, [v] * (n + 1),
                   [w] * n, tuple([v] * n), [], [v, w, v][:n]])
-  NORM = [None, 1, 2, "inf", 0, 3]
   def lc_factors(b):
     n = len(b["monotonicities"])
     return dict(monotonicities=lmono(n), monotonic_dominances=DOMS, range_dominances=DOMS,
                 input_min=lbound(n, 0.0, 1.0), input_max=lbound(n, 1.0, 0.0), normalization_order=NORM)
-  def norm_py(v):
-    import numpy as np
-    return np.inf if v == "inf" else v
-  S.append(Spec("LinearConstraints", "linearConstraints",
+  def with_norm(ctor):
+    return lambda c: ctor(**dict(c, normalization_order=no_py(c["normalization_order"])))
+  S.append(Spec("LinearConstraints", "linearConstraintsFull",
                 [("monotonicities", "v"), ("monotonic_dominances", "v"), ("range_dominances", "v"),
-                 ("input_min", "v"), ("input_max", "v")],
+                 ("input_min", "v"), ("input_max", "v"), ("normalization_order", "no")],
                 [dict(monotonicities=[1, 1, 0], monotonic_dominances=None, range_dominances=None, input_min=None,
-                      input_max=None),
+                      input_max=None, normalization_order=("val", None)),
                  dict(monotonicities=[1, 1], monotonic_dominances=None, range_dominances=[(0, 1)], input_min=[0.0, 0.0],
-                      input_max=[1.0, 1.0]),
+                      input_max=[1.0, 1.0], normalization_order=("val", 1)),
                  dict(monotonicities=[-1, -1, 1], monotonic_dominances=None, range_dominances=[(0, 1)],
-                      input_min=[0.0, 0.0, 0.0], input_max=[1.0, 1.0, 1.0]),
+                      input_min=[0.0, 0.0, 0.0], input_max=[1.0, 1.0, 1.0], normalization_order=("val", 1)),
                  dict(monotonicities=[1, 1, 1], monotonic_dominances=[(0, 1), (1, 2)], range_dominances=None,
-                      input_min=[0.0, 0.0, 0.0], input_max=[1.0, 1.0, 1.0]),
+                      input_min=[0.0, 0.0, 0.0], input_max=[1.0, 1.0, 1.0], normalization_order=("inf",)),
                  dict(monotonicities=[-1, -1, -1], monotonic_dominances=None, range_dominances=[(0, 1), (1, 2)],
-                      input_min=[0.0, 0.0, 0.0], input_max=[1.0, 1.0, 1.0])],
-                lc_factors, lambda c: lin.LinearConstraints(**c)))
+                      input_min=[0.0, 0.0, 0.0], input_max=[1.0, 1.0, 1.0], normalization_order=("val", 2))],
+                lc_factors, with_norm(lin.LinearConstraints)))
   def ll_factors(b):
     n = b["num_input_dims"]
     # since fix 4a8f232 `Linear.__init__` hands input_min / input_max to the verification: wrong
     # lengths, crossed bounds and non-float entries with and WITHOUT monotonicities (no constraint object)
     return dict(num_input_dims=[1, 2, 3, 0], monotonicities=lmono(n) + [1, "increasing", -1, 0, "none", 2, "peak"],
                 input_min=lbound(n, 0.0, 1.0) + [[0.0] * (n - 1), [2.0] * n],
-                input_max=lbound(n, 1.0, 0.0) + [[1.0] * (n - 1), [-1.0] * n])
-  S.append(Spec("Linear", "linearLayer", [("num_input_dims", "v"), ("monotonicities", "v"), ("input_min", "v"),
-                                           ("input_max", "v")],
-                [dict(num_input_dims=2, monotonicities=[1, 0], input_min=None, input_max=None),
-                 dict(num_input_dims=3, monotonicities="increasing", input_min=[0.0, 0.0, 0.0], input_max=None),
-                 dict(num_input_dims=1, monotonicities=None, input_min=None, input_max=None),
-                 dict(num_input_dims=3, monotonicities=None, input_min=[0.0, None, 0.0], input_max=[1.0, 1.0, 1.0])],
-                ll_factors, lambda c: lin.Linear(**c)))
+                input_max=lbound(n, 1.0, 0.0) + [[1.0] * (n - 1), [-1.0] * n], units=UNITS + [1.0, 3], normalization_order=NORM)
+  S.append(Spec("Linear", "linearLayerFull", [("num_input_dims", "v"), ("monotonicities", "v"), ("input_min", "v"),
+                                               ("input_max", "v"), ("units", "v"), ("normalization_order", "no")],
+                [dict(num_input_dims=2, monotonicities=[1, 0], input_min=None, input_max=None, units=1,
+                      normalization_order=("val", None)),
+                 dict(num_input_dims=3, monotonicities="increasing", input_min=[0.0, 0.0, 0.0], input_max=None, units=2,
+                      normalization_order=("val", 1)),
+                 dict(num_input_dims=1, monotonicities=None, input_min=None, input_max=None, units=1,
+                      normalization_order=("inf",)),
+                 dict(num_input_dims=3, monotonicities=None, input_min=[0.0, None, 0.0], input_max=[1.0, 1.0, 1.0], units=3,
+                      normalization_order=("val", 2))],
+                ll_factors, with_norm(lin.Linear)))
   # ---- Lattice.__init__: two verifications (the second one, of the joint unimodalities, since fix
   # f995047) and create_kernel_initializer, which indexes per-dimension lists by the jointly unimodal dims
   KINIT = {"other": "random_uniform_or_linear_initializer"}
@@ -392,19 +432,30 @@ def _specs():
                 monotonicities=lattice_mono(n), unimodalities=lattice_uni(n), joint_unimodalities=JOINT_UNI,
                 output_min=[None, 0.0, 1.0, 0, 2.0], output_max=[None, 0.0, 1.0, 2.0, -1.0],
                 interpolation=["hypercube", "simplex", "Simplex", "other"],
-                kernel_initializer=["other", "linear_initializer", "random_monotonic_initializer", "uniform"])
+                kernel_initializer=["other", "linear_initializer", "random_monotonic_initializer", "uniform"],
+                units=UNITS, num_projection_iterations=ITERS,
+                # stored (a single tuple wrapped), verified only by LatticeConstraints at build; `()`: x[0] of an
+                # empty tuple (F-C16-aj)
+                edgeworth_trusts=L_TRUSTS, trapezoid_trusts=L_TRUSTS, monotonic_dominances=L_PAIRS,
+                range_dominances=L_PAIRS, joint_monotonicities=L_PAIRS)
+  L_TRUSTS = [None, (), [], [(0, 1, 1)], (0, 1, "positive"), [(0, 5, 1)], ((0, 1, 1),)]
+  L_PAIRS = [None, (), [], (0, 1), [(0, 1)], [(0, 9)]]
   def lay_base(sizes, mono, ju=None, init="other"):
     return dict(lattice_sizes=sizes, monotonicities=mono, unimodalities=None, joint_unimodalities=ju,
                 output_min=None if len(sizes) == 1 else 0.0, output_max=None if len(sizes) == 3 else 1.0,
-                interpolation="hypercube", kernel_initializer=init)
+                interpolation="hypercube", kernel_initializer=init, units=1 if len(sizes) != 3 else 2,
+                num_projection_iterations=10, edgeworth_trusts=None, trapezoid_trusts=None, monotonic_dominances=None,
+                range_dominances=None, joint_monotonicities=None)
   def lay_call(c):
     kw = dict(c)
     kw["joint_unimodalities"] = ju_py(c["joint_unimodalities"])
     kw["kernel_initializer"] = KINIT.get(c["kernel_initializer"], c["kernel_initializer"])
     return ll.Lattice(**kw)
-  S.append(Spec("Lattice", "latticeLayer",
+  S.append(Spec("Lattice", "latticeLayerFull",
                 [("lattice_sizes", "v"), ("monotonicities", "v"), ("unimodalities", "v"), ("joint_unimodalities", "ju"),
-                 ("output_min", "v"), ("output_max", "v"), ("interpolation", "v"), ("kernel_initializer", "v")],
+                 ("output_min", "v"), ("output_max", "v"), ("interpolation", "v"), ("kernel_initializer", "v"),
+                 ("units", "v"), ("num_projection_iterations", "v"), ("edgeworth_trusts", "v"), ("trapezoid_trusts", "v"),
+                 ("monotonic_dominances", "v"), ("range_dominances", "v"), ("joint_monotonicities", "v")],
                 [lay_base([2, 2], [1, 1]), lay_base([3, 3], [1, 0]), lay_base([3, 3, 3], None, ("list", [([0, 1], "valley")])),
                  lay_base([3, 3], [0, 0], ("list", [([0, 1], "peak")]), "uniform"),
                  lay_base([3, 3, 3], [0, 0, 1], ("single", [0, 1], "valley"), "linear_initializer"),
@@ -436,15 +487,44 @@ def _specs():
                 [("num_buckets", "v"), ("output_min", "v"), ("output_max", "v"), ("monotonicities", "v")],
                 [dict(num_buckets=3, output_min=0.0, output_max=1.0, monotonicities=[(0, 1)])],
                 lambda b: dict(cc_factors(b), num_buckets=NB), lambda c: cl.CategoricalCalibration(**c)))
+  # the same constructor with the arguments it only stores (`units`, `split_outputs`): sampled product
+  S.append(Spec("CategoricalCalibrationFull", "categoricalLayerFull",
+                [("num_buckets", "v"), ("output_min", "v"), ("output_max", "v"), ("monotonicities", "v"), ("units", "v"),
+                 ("split_outputs", "v")],
+                [dict(num_buckets=3, output_min=0.0, output_max=1.0, monotonicities=[(0, 1)], units=2, split_outputs=True)],
+                lambda b: dict(cc_factors(b), num_buckets=NB, units=UNITS, split_outputs=SPLIT),
+                lambda c: cl.CategoricalCalibration(**c)))
   # ---- KFL
   def kfl_factors(b):
-    return dict(lattice_sizes=[0, 1, 2, 3, -1], units=[0, 1, 2, -1], num_terms=[0, 1, 2, -1],
-                output_min=OUTB, output_max=OUTB)
-  S.append(Spec("KroneckerFactoredLattice", "kflLayer",
+    # floats (2.0 passes `2.0 < 2`), None (skips the check): accepted by the constructor (F-C16-ai)
+    # (domains sized to keep the table exhaustive: 7 * 6 * 6 * 36 rows)
+    return dict(lattice_sizes=[0, 1, 2, 3, 2.0, 1.5, None], units=[0, 1, 2, -1, 2.0, None],
+                num_terms=[0, 1, 2, 2.0, 0.5, None], output_min=OUTB, output_max=OUTB)
+  S.append(Spec("KroneckerFactoredLattice", "kflLayerInt",
                 [("lattice_sizes", "v"), ("units", "v"), ("num_terms", "v"), ("output_min", "v"), ("output_max", "v")],
                 [dict(lattice_sizes=2, units=1, num_terms=2, output_min=None, output_max=None),
                  dict(lattice_sizes=3, units=2, num_terms=1, output_min=0.0, output_max=1.0)],
                 kfl_factors, lambda c: kl.KroneckerFactoredLattice(**c)))
+  # ---- KFL constructor + build on an input of the layer's own shape (the monotonicities are verified at build):
+  # integer sizes / units / terms only (what `add_weight` does with a float is not modelled: F-C16-ai)
+  KMONO = [None, [], [0, 0], [1, 0], ["increasing", 1], [1], [-1, 0], (1, 1), [1, 1, 0], ["Increasing", "none"], [2, 0],
+           ["peak", 0], [None, 1], ["decreasing", 1], ("none", "increasing", 0)]
+  def kflb_factors(b):
+    return dict(lattice_sizes=[0, 1, 2, 3, -1], units=[0, 1, 2, -1], num_terms=[0, 1, 2, -1], output_min=OUTB,
+                output_max=OUTB, monotonicities=KMONO, dims=[1, 2, 3])
+  def kflb_call(c):
+    import tensorflow as tf
+    kw = dict(c)
+    dims = kw.pop("dims")
+    layer = kl.KroneckerFactoredLattice(**kw)
+    layer.build(tf.TensorShape([None, dims] if c["units"] == 1 else [None, c["units"], dims]))
+    return layer
+  S.append(Spec("KroneckerFactoredLatticeBuild", "kflBuildRow",
+                [("lattice_sizes", "v"), ("units", "v"), ("num_terms", "v"), ("output_min", "v"), ("output_max", "v"),
+                 ("monotonicities", "v"), ("dims", "v")],
+                [dict(lattice_sizes=2, units=1, num_terms=2, output_min=None, output_max=None, monotonicities=[1, 0], dims=2),
+                 dict(lattice_sizes=3, units=2, num_terms=1, output_min=0.0, output_max=1.0, monotonicities=None, dims=3)],
+                kflb_factors, kflb_call))
   # ---- RTL
   REGS = [None, [], ("torsion", 0.1, 0.2), ["torsion", 0.1, 0.2], [("torsion", 0.1, 0.2)], [["laplacian", 0.1, 0.0]],
           [("torsion", 0.1)], [("torsion", 1, 0.2)], [("torsion", 0.1, 2)], [["torsion", 0.1, 0.2], ("laplacian", 0.0, 0.1)]]
@@ -655,20 +735,23 @@ def build_table():
   return out
 
 
-REC = {"latticeConstraints": "RawLattice", "linearInitializer": "RawLatInit", "randomMonotonicInitializer": "RawLatInit2",
+REC = {"latticeConstraintsFull": "RawLatticeFull", "pwlCalibrationFull": "RawPwlFull", "pwlConstraintsFull": "RawPwlCFull",
+       "linearConstraintsFull": "RawLinCFull", "linearLayerFull": "RawLinFull", "latticeLayerFull": "RawLatLayerFull",
+       "categoricalLayerFull": "RawCatFull", "kflBuildRow": "RawKflBuild", "kflLayerInt": "RawKfl",
+       "latticeConstraints": "RawLattice", "linearInitializer": "RawLatInit", "randomMonotonicInitializer": "RawLatInit2",
        "laplacianRegularizer": "RawLatReg", "torsionRegularizer": "RawLatReg", "pwlCalibration": "RawPwl",
        "pwlConstraints": "RawPwlC", "uniformOutputInitializer": "RawPwlInit", "linearConstraints": "RawLinC",
        "linearLayer": "RawLin", "latticeLayer": "RawLatLayer", "categoricalConstraints": "RawCatC", "categoricalLayer": "RawCat",
        "kflLayer": "RawKfl", "rtlLayer": "RawRtl", "premadeConfig": "RawPremade"}
 PM_TYPES = ["Nat", "Option (List Feat)", "Nat", "Nat", "Nat", "Nat", "Option Int", "Int", "Nat", "Nat", "Nat"]
-DEFAULTS = {"Val": ".a .none", "JU": ".none", "Nat": "0", "Int": "0", "Option (List Feat)": "none", "Option Int": "none"}
+DEFAULTS = {"Val": ".a .none", "JU": ".none", "NormOrd": ".val (.a .none)", "Nat": "0", "Int": "0", "Option (List Feat)": "none", "Option Int": "none"}
 BASE = 64
 
 
 def pos_types(spec):
   if spec.lean_fn == "premadeConfig":
     return PM_TYPES
-  return ["JU" if k == "ju" else "Val" for _, k in spec.args]
+  return [{"ju": "JU", "no": "NormOrd"}.get(k, "Val") for _, k in spec.args]
 
 
 def emit(table):
